@@ -82,7 +82,7 @@ def rand_descriptor(rng, depth, fail_bias=0.35):
     if names:
         for k in rng.sample(names, rng.randint(0, min(3, len(names)))):
             attrs.append((k, rand_value(rng, depth - 1, fail_bias)))
-    if rng.random() < 0.06:
+    if names and rng.random() < 0.06:
         attrs.append((rng.choice([1, None, 2.5, True]), 0))      # setattr with a non-string name
     d = descriptor(name, params, attrs)
     if attrs and rng.random() < 0.3:
@@ -125,10 +125,10 @@ def systematic():
             out.append(descriptor(name, _fresh(PARAMS_BY_CLASS[name][0]), [(a, 1)]))
             out.append(descriptor(name, _fresh(PARAMS_BY_CLASS[name][0]), [("zzz", [1]), (a, {"k": (1, 2)})]))
         # nested failure after a successful attribute
-        out.append(descriptor(name, _fresh(PARAMS_BY_CLASS[name][0]),
-                              [(ATTRS_BY_CLASS[name][0] if ATTRS_BY_CLASS[name] else "x", 1),
-                               ("inner", descriptor("nomod_zz.X", []))]))
-        out.append(descriptor(name, _fresh(PARAMS_BY_CLASS[name][0]), [(1, 2)]))
+        if ATTRS_BY_CLASS[name]:      # (enum members are process-global objects: no attributes are set on them)
+            out.append(descriptor(name, _fresh(PARAMS_BY_CLASS[name][0]),
+                                  [(ATTRS_BY_CLASS[name][0], 1), ("inner", descriptor("nomod_zz.X", []))]))
+            out.append(descriptor(name, _fresh(PARAMS_BY_CLASS[name][0]), [(1, 2)]))
     for name in NAMES_UNRESOLVED + NAMES_INVALID + NAMES_NONSTR:
         for params in ([], {}, None):
             out.append(descriptor(_fresh(name), _fresh(params)))
